@@ -156,7 +156,14 @@ def handle (inp out : String) : String :=
     match algo.toNat?, maxL.toNat? with
     | some a, some m =>
       let ms := runTb a m (ops.splitOn ";")
-      let spec := match ow with
+      -- the maximum level is configured before the first leaf: a closed tree above it means a leaf was accepted that
+      -- had to be refused (Props.C16.treeBuilder_root_within_max)
+      let maxSpec : Option String := match ow with
+        | _ :: rl :: _ => match rl.toNat? with
+          | some l => if m > 0 && l > m then some s!"closed-tree-of-level-{l}-above-the-configured-maximum-{m}" else none
+          | none => none
+        | _ => none
+      let spec := maxSpec.orElse fun _ => match ow with
         | _ :: rl :: ri :: _ :: leaves => if rl == "-" || ri == "-" then none else leafOracle a rl ri leaves
         | _ => some "short-impl-output"
       let nOk := ((ms.splitOn " ").head!.splitOn ",").filter (· == "0") |>.length
